@@ -353,6 +353,9 @@ class _MultiplicationFunctionMaker(_OperationFunctionMaker):
         first_func = self._first_operand.func(input_value)
         second_func = self._second_operand.func(input_value)
         second_jac = self._second_operand._jac(input_value)
+        if numpy.ndim(first_jac) != numpy.ndim(second_jac):
+            # A scalar function (1D gradient) combined with a vectorial one.
+            first_jac, second_jac = atleast_2d(first_jac), atleast_2d(second_jac)
 
         # The operands' values scale the rows of the Jacobians (one row per output).
         first_jac_t = numpy.transpose(first_jac)
